@@ -40,15 +40,16 @@ CLAIMS = {
  "C17": dict(text="Lean theorems: every error any evaluator function returns is located (G5, induction over all 23 functions), a located "
                   "error renders as `<l>:<c>:[ in 'f':] msg`, the stack trace has one line per active call ending at <root>, failures keep the "
                   "output printed so far (G3), success is silent; `decide` theorems over the tables regenerated from the source on every run (every context wrapper of the error enum "
-                  "is looked through by the CLI renderer or is a position/frame carrier); every position of every runtime diagnostic has line ≥ 1 "
-                  "(`diag_line_ge_one`); run-level correspondence of the full stderr text on "
+                  "is looked through by the CLI renderer or is a position/frame carrier); every position of every runtime diagnostic of every "
+                  "program, interpolation slots included, lies on a line of the source (`diag_line_in_source`: 1 ≤ line ≤ 1 + line breaks; slot "
+                  "texts are contiguous pieces of the source); run-level correspondence of the full stderr text on "
                   "error kind × syntactic position × call depth × context; model-free oracle = stderr grammar, planted call chain vs stack "
                   "trace (call chains written in 12 call styles), planted prints vs stdout, no internal identifiers. Known findings K1, K6 are "
                   "reported as KNOWN-FINDING.",
              ref="§6 C17", technique="Lean 4 theorems (err_located, render shape) + decide-theorems over extracted tables + stderr correspondence + grammar oracle"),
 
  "C01": dict(text="The Lean evaluator is the independent executable reading of docs/features.md. Theorems: the meaning of a terminating "
-                  "program does not depend on the fuel (G1, all 23 evaluator functions), statement sequences compose (seq_compose), an "
+                  "program does not depend on the fuel (G1, all 23 evaluator functions), statement sequences compose (seq_compose; seq_compose_upto: both directions, up to fuel), an "
                   "escaping statement cuts the sequence, statement lists that are equivalent up to fuel are interchangeable in every "
                   "statement context (`stmt_ctx_congr_upto`; the fuel-exact form holds exactly under a side condition, with a "
                   "counterexample otherwise). Tie: the model and the implementation must both reproduce the maintainers' "
@@ -111,7 +112,8 @@ CLAIMS.update({
                   "parentheses, the driver's fuel), `parse_sound` (the parser only produces well-formed trees), hence the well-formed trees "
                   "are exactly the parser's image (`image_iff`) and printing is injective on them; with C09's lexer round trip, "
                   "`front_end_roundtrip`: the printed SOURCE TEXT of every well-formed program parses back to it; left-associativity, tighter-tier-first, `..` loosest, "
-                  "negative literal vs subtraction, parentheses override; `decide` theorems that the tier table extracted from the grammar "
+                  "negative literal vs subtraction, parentheses override; every parenthesis the printer puts is NECESSARY (`printed_paren_necessary`: "
+                  "delete any one printed pair and no parse of the rest gives the tree back; `parseExpr_paren_count`, whole grammar); `decide` theorems that the tier table extracted from the grammar "
                   "is the documented one. Tie at tree level; oracle: the generator's own tree must equal the implementation's dump for "
                   "minimal / full / redundant parenthesisations, exhaustive over operator sequences, CLI-confirmed with distinguishing values.",
              ref="§6 C08", technique="Lean 4 parser/printer round-trip and grouping theorems + decide-theorems over the extracted tier table + tree-level correspondence"),
@@ -121,7 +123,8 @@ CLAIMS.update({
                   "on the position the scan starts from, `skipWs_spec`, inserting blanks/comments at any token boundary leaves the token kinds "
                   "unchanged (`layout_invariance_at_boundary`), a newline at a boundary is a `;` (`newline_is_semicolon_at_boundary`), `_` in "
                   "integer literals; `lex_render`: the lexer round trip — lexing the canonical spelling of any well-formed token list gives the "
-                  "list back (exactly which terminators survive suppression is stated). Tie at token level (positions erased) and run level; oracle: layout "
+                  "list back (exactly which terminators survive suppression is stated); at the end of a text the boundary theorems hold exactly "
+                  "when the text does not end inside an open literal (`layout_at_end_iff`), appended text inside an open literal is literal text. Tie at token level (positions erased) and run level; oracle: layout "
                   "metamorphism on the implementation (same tokens, same output, diagnostics at the mapped position).",
              ref="§6 C09", technique="Lean 4 theorems on terminator suppression + decide-theorems over extracted tables + layout-metamorphism correspondence"),
  "C10": dict(text="Lean theorems: `==` on acyclic values equals equality of their tree unfoldings (so aliasing, construction and insertion "
@@ -143,7 +146,9 @@ CLAIMS.update({
                   "parameters, shape errors; `bind_nested`: for arbitrarily nested declaration patterns (variables, `_`, lists with rest, objects "
                   "with shorthand / literal keys / rest) the engine equals a pure matcher `pmatch`, succeeds iff the declarative "
                   "projection exists with fresh distinct names, binds every leaf to its projection, allocates exactly the rest cells and "
-                  "changes nothing else; exact error at every depth (computed keys and index/property targets stay at depth 1). Tie + Python destructuring "
+                  "changes nothing else; exact error at every depth; `assign_nested`: the same for ASSIGNMENT through patterns of any depth "
+                  "(ok iff shape, distinct leaf names, every leaf declared in the chain; each leaf stored in its nearest binding; frame and "
+                  "read-back) (computed keys and index/property targets stay at depth 1). Tie + Python destructuring "
                   "reference and in-language round-trip laws over patterns × sources × positions (keys `_` included: defect D10, repaired).",
              ref="§6 C13", technique="Lean 4 bind/spread theorems + pattern×source exhaustive correspondence + Python reference oracle"),
  "C14": dict(text="Lean theorems: arguments evaluated once left to right before the callee, arity rule, parameters live in a fresh scope cell "
